@@ -333,6 +333,25 @@ type bmWrap struct {
 	inc *Inc
 }
 
+// ImportBlock optionally delays the completion callback (plan.ImportCbDelayMs):
+// the engine then sees import results of a round after it moved on to later
+// rounds - an interleaving that the synchronous fixtures never produce.
+func (b *bmWrap) ImportBlock(blk module.BlockData, flags int, cb func(module.BlockCandidate, error)) (module.Canceler, error) {
+	c := b.inc.c
+	p := c.Opt.Plan
+	if p == nil || p.ImportCbDelayMs <= 0 || flags&module.ImportByForce != 0 || c.Router.float() >= p.ImportCbDelayP {
+		return b.BlockManager.ImportBlock(blk, flags, cb)
+	}
+	d := time.Duration(1+c.Router.intn(p.ImportCbDelayMs)) * time.Millisecond
+	c.Mon.countImportDelay()
+	return b.BlockManager.ImportBlock(blk, flags, func(bc module.BlockCandidate, err error) {
+		go func() {
+			time.Sleep(d)
+			cb(bc, err)
+		}()
+	})
+}
+
 func (b *bmWrap) Finalize(bc module.BlockCandidate) error {
 	b.inc.c.Mon.onFinalize(b.inc, bc.Height(), bc.ID())
 	return b.BlockManager.Finalize(bc)
